@@ -263,4 +263,36 @@ func init() {
 			return js
 		},
 	})
+	reg(&PropSpec{
+		ID: "C06", Level: "model_checking",
+		Explanation: bmcText + "C06: every stage (Map, FMap, Filter, ForEach, Void, Fold, Partition, Join, Take, TakeWhile, StdErr, Map with failing Lift/Try, Unfold, Emit, Throttling) under a maximally permissive environment: the producer may close the input early at any point, every consumer (values, second output, done channel, errors) may stop receiving for good at any point, cancel may fire at any step or never - coin flips and schedule are solver variables. Checked: no panic in any goroutine; every received value is the next element of the uncancelled result (prefix); at every quiescent state: inputs closed and outputs drained => all returned channels closed and library goroutines gone; cancelled and inputs closed => the same with no assumption on consumers (Throttling's pacer is a permitted daemon until cancel). Generators (Unfold, Emit) and clocked stages are checked for all runs of up to K steps (stated prefix bound).",
+		Assumptions: bmcAssumptions,
+		Jobs: func(tier string) []JobSpec {
+			caps, ns := []int{0, 1}, []int{1}
+			if tier == "thorough" {
+				caps, ns = []int{0, 1}, []int{1, 2}
+			}
+			var js []JobSpec
+			for st := 0; st <= 12; st++ {
+				for _, c := range caps {
+					for _, n := range ns {
+						js = append(js, JobSpec{Group: "pipe", Harness: "VLife", Mode: "bmc", Params: map[string]int{"stage": st, "cap": c, "n": n}, K: 40})
+					}
+				}
+			}
+			if tier != "thorough" { // two elements, unbuffered, for the cheaper stages
+				for _, st := range []int{0, 2, 5, 8, 9} {
+					js = append(js, JobSpec{Group: "pipe", Harness: "VLife", Mode: "bmc", Params: map[string]int{"stage": st, "cap": 0, "n": 2}, K: 40})
+				}
+			}
+			for _, c := range caps { // generators: bounded prefix of every run
+				k := 24
+				if tier == "thorough" {
+					k = 36
+				}
+				js = append(js, JobSpec{Group: "pipe", Harness: "VLife", Mode: "bmc", Params: map[string]int{"stage": 13, "cap": c, "n": 1, "generator": 1}, K: k})
+			}
+			return js
+		},
+	})
 }
